@@ -396,14 +396,6 @@ func (in *mcInst) closingDrain() {
 			return
 		}
 	}
-	tx := conn.VerifC18ChanStates(in.tx)
-	rx := conn.VerifC18ChanStates(in.rx)
-	for i := range tx {
-		if tx[i].Queued != 0 || tx[i].Sending != 0 || rx[i].Recving != 0 || tx[i].QueueSize != 0 {
-			in.fail("mconn:residue-after-drain", "channel %#x after drain: queued %d (counter %d), sending %d bytes, receiver holds %d bytes of an unfinished message", in.c.chIDs[i], tx[i].Queued, tx[i].QueueSize, tx[i].Sending, rx[i].Recving)
-			return
-		}
-	}
 }
 
 var mcExecs, mcEvents int64
